@@ -423,6 +423,15 @@ func (em *emitter) assignValuesToAddresses(addresses []address, values []ast.Exp
 				types[i] = em.typ(values[i])
 			}
 			regs[i] = em.fb.newRegister(types[i].Kind())
+			if k := types[i].Kind(); k == reflect.Struct || k == reflect.Array {
+				// The value of an index expression refers to the element:
+				// it is copied, because the element can be assigned by
+				// this same assignment (a[i], a[j] = a[j], a[i]).
+				tmp := em.fb.newRegister(k)
+				em.emitExprR(values[i], types[i], tmp)
+				em.fb.emitMove(false, tmp, regs[i], k)
+				continue
+			}
 			em.emitExprR(values[i], types[i], regs[i])
 		}
 		for i, addr := range addresses {
